@@ -598,7 +598,7 @@ def _setup_linear_problem(A: LinearOperator, B: torch.Tensor,
             # x: (ncols, *BX, nr, 1)
             ATx = A.rmm(x)
             MTx = M.rmm(x) if M is not None else x
-            MTxE = MTx * E_new
+            MTxE = MTx * E_new.conj()
             return ATx - MTxE
 
         col_swapped = True
